@@ -1,6 +1,7 @@
 import EgVerif.Proofs.CircuitBreaker
 import EgVerif.Proofs.CircuitBreakerTime
 import EgVerif.Gen.FactsC08
+import EgVerif.Proofs.CircuitBreakerIR
 /-!
 # C08 — the circuit breaker obeys the CLOSED / OPEN / HALF_OPEN contract on every call history
 
@@ -493,5 +494,42 @@ example : ∃ cb now ids, Reach pEx cb now ids ∧ cb.st = St.open ∧ ids ≠ [
   refine ⟨_, _, _, Reach.step (Reach.step (Reach.step (Reach.step (Reach.init 0) (Step.acquire _ _ _))
     (Step.acquire _ _ _)) (Step.record _ _ _ 1 true 0 (by decide))) (Step.record _ _ _ 1 true 0 (by decide)),
     by decide, by decide⟩
+
+/-! ### Regenerated tie by translation (`notes/IR.md`)
+
+`Gen.FactsC08IR.*IR` are re-translated on every run from the current bodies of `CountBasedWindow.Push`,
+`CircuitBreaker.transitTo`, `AcquirePermission`, `RecordResult` (go/ast → Lean,
+`harness/factextract/irlib.go`; switch → if-chain, fall-through branches merged through tuples, mutex
+and listener ignored); each is the model function on every input. Proofs: `Proofs/CircuitBreakerIR.lean`. -/
+
+theorem countPush_regenerated_from_source (w : CountWin) (r : Res) :
+    Gen.FactsC08IR.extractionFailed = false ∧ Gen.FactsC08IR.countPushIR w r = w.push r :=
+  ⟨by decide, CircuitBreaker.countPush_regenerated_from_source w r⟩
+
+theorem transitTo_regenerated_from_source (p : Policy) (cb : CB) (now : Int) (s : St) :
+    Gen.FactsC08IR.extractionFailed = false ∧ Gen.FactsC08IR.transitToIR p cb now s = transitTo p cb now s :=
+  ⟨by decide, CircuitBreaker.transitTo_regenerated_from_source p cb now s⟩
+
+theorem acquire_regenerated_from_source (p : Policy) (cb : CB) (now : Int) :
+    Gen.FactsC08IR.extractionFailed = false ∧ Gen.FactsC08IR.acquireIR p cb now = acquire p cb now :=
+  ⟨by decide, CircuitBreaker.acquire_regenerated_from_source p cb now⟩
+
+theorem record_regenerated_from_source (p : Policy) (cb : CB) (id : Nat) (hasErr : Bool) (d now : Int) :
+    Gen.FactsC08IR.extractionFailed = false ∧
+      Gen.FactsC08IR.recordIR p cb id hasErr d now = record p cb id hasErr d now :=
+  ⟨by decide, CircuitBreaker.record_regenerated_from_source p cb id hasErr d now⟩
+
+/-- `TimeBasedWindow.evict` (the `for i := 0; i < evicts; i++` loop as generated recursion on a fuel,
+`b := &tbw.bucket[i]` as reads / writes through the list). -/
+theorem timeEvict_regenerated_from_source (w : TimeWin) (now : Int) :
+    Gen.FactsC08IR.extractionFailed = false ∧ Gen.FactsC08IR.timeEvictIR w now = w.evict now :=
+  ⟨by decide, CircuitBreaker.timeEvict_regenerated_from_source w now⟩
+
+/-- `TimeBasedWindow.Push`; Go's `int` index arithmetic is the model's `Nat` arithmetic as long as the
+clock is not behind the window start after `evict`. -/
+theorem timePush_regenerated_from_source (w : TimeWin) (now : Int) (r : Res)
+    (h : (w.evict now).beginAt ≤ now) :
+    Gen.FactsC08IR.extractionFailed = false ∧ Gen.FactsC08IR.timePushIR w now r = w.push now r :=
+  ⟨by decide, CircuitBreaker.timePush_regenerated_from_source w now r h⟩
 
 end EgVerif.C08
